@@ -4,6 +4,7 @@ C17 — sort-by and list (property theorems; discrete).
 The keys are integers (`(property · 1000) as i32`), so everything here is exact.
 -/
 import Pastel.Model.Cli
+import Pastel.Model.CliRun
 
 namespace Pastel.C17
 open Pastel
@@ -150,5 +151,46 @@ theorem list_sorted (items : List SortItem) : (listCmd items).Pairwise (fun a b 
 /-- Non-vacuity: three colours, two with equal keys, keep their input order. -/
 example : (sortCmd false false [⟨0, 5, 7⟩, ⟨1, 9, 3⟩, ⟨2, 4, 7⟩]).map (·.tag) = [1, 0, 2] := by
   simp [sortCmd, stableSortBy, List.mergeSort, List.merge, List.MergeSort.Internal.splitInTwo]
+
+/-! ### The command line: `sort-by` prints the input colours as a multiset -/
+
+section clirun
+open Pastel.Cli
+
+/-- The items `sort-by` builds from the collected colours carry their positions as tags. -/
+theorem items_show (order : String) (cs : List Col) :
+    ((cs.zipIdx).map fun ci => ({ tag := ci.2, packed := packedOf ci.1, key := sortKeyOf order ci.1 } : SortItem)).map
+      (fun it => match cs[it.tag]? with | some c => showColor c | none => "") = cs.map showColor := by
+  rw [List.map_map]
+  apply List.ext_getElem?
+  intro i
+  simp only [List.getElem?_map, List.getElem?_zipIdx]
+  cases h : cs[i]? with
+  | none => simp
+  | some c => simp [h]
+
+/-- **`pastel sort-by <key>` (without `--unique`) prints exactly the input colours, as a multiset**:
+whenever all colours can be read (arguments, `-`, or stdin lines), the printed lines are a
+permutation of the lines `pastel color` prints for them, with and without `--reverse`. -/
+theorem sort_cli_perm (order r : String) (colors : List String) (stdin : List StdinLine) (cs : List Col)
+    (h : (if colors.isEmpty then collectStdin stdin else collectArgs colors stdin) = .ok cs) :
+    (run "sort-by" [order, "0", r] colors stdin).err = none ∧
+    (run "sort-by" [order, "0", r] colors stdin).lines.Perm (cs.map showColor) := by
+  have hrun : run "sort-by" [order, "0", r] colors stdin = runSort [order, "0", r] colors stdin := by
+    unfold run
+    simp only [show ("sort-by" = "mix") = False by decide, show ("sort-by" = "gray") = False by decide,
+      show ("sort-by" = "gradient") = False by decide, if_false, if_true]
+  rw [hrun]
+  unfold runSort
+  simp only [h]
+  refine ⟨trivial, ?_⟩
+  have hu : (("0" : String) = "1") = False := by decide
+  simp only [hu, decide_false]
+  have hp := sort_perm (decide (r = "1")) ((cs.zipIdx).map fun ci => ({ tag := ci.2, packed := packedOf ci.1, key := sortKeyOf order ci.1 } : SortItem))
+  have := hp.map (fun it => match cs[it.tag]? with | some c => showColor c | none => "")
+  rw [items_show] at this
+  exact this
+
+end clirun
 
 end Pastel.C17
